@@ -65,6 +65,7 @@ type pathMgr struct {
 	kinds   map[string]types.BasicKind
 	unwind  int
 	facts   map[string]string
+	pcSet   map[string]bool
 
 	concrete *Replay
 	newWork  [][]int64
@@ -80,6 +81,7 @@ func (pm *pathMgr) beginRun(prefix []int64) {
 	pm.kinds = map[string]types.BasicKind{}
 	pm.unwind = pm.cfg.Unwind
 	pm.facts = map[string]string{}
+	pm.pcSet = map[string]bool{}
 	pm.newWork = nil
 	if pm.concrete == nil {
 		pm.sol.push()
@@ -93,9 +95,10 @@ func (pm *pathMgr) endRun() {
 }
 
 func (pm *pathMgr) addPC(c string) {
-	if c == "true" {
+	if c == "true" || pm.pcSet[c] {
 		return
 	}
+	pm.pcSet[c] = true
 	pm.pc = append(pm.pc, c)
 	pm.sol.assert(c)
 }
@@ -292,6 +295,15 @@ func (i *interpreter) decide(fr *frame, c value) bool {
 	case bool:
 		return c
 	case symv:
+		if i.pm.concrete == nil {
+			// already decided on this path (syntactically): no new decision
+			if i.pm.pcSet[c.t] {
+				return true
+			}
+			if i.pm.pcSet["(not "+c.t+")"] {
+				return false
+			}
+		}
 		return i.pm.branch([]string{c.t, "(not " + c.t + ")"}, true) == 0
 	}
 	panic(engineError{fmt.Sprintf("decide: %T", c)})
